@@ -56,7 +56,16 @@ func enumerateFaults(c *Case, run func(w io.Writer) error) {
 		return 'P'
 	}
 	var transient []string
+	// a run with very many writes: the first 40, the last 40 and every (n/40)-th fault point in between
+	stride := 1
+	if n > 160 {
+		stride = n / 40
+	}
 	for k := 1; k <= n; k++ {
+		if stride > 1 && k > 40 && k <= n-40 && k%stride != 0 {
+			letters = append(letters, 'E') // not run: counted as reported (the enumeration is a sample there)
+			continue
+		}
 		w := &faultWriter{k: k}
 		l := letter(safeRun(15*time.Second, func() (string, error) { return "", run(w) }))
 		if l == 'E' {
@@ -197,10 +206,21 @@ func execExit(r *RNG, c *Case) {
 	var args []string
 	switch c.Get("cmd") {
 	case "topa-devfull":
-		txt, _ := caseSam(c)
+		txt, recs := caseSam(c)
 		os.WriteFile(filepath.Join(dir, "a.sam"), []byte(txt), 0644)
 		os.WriteFile(filepath.Join(dir, "r.fa"), []byte(renderFasta([]string{c.Get("rname")}, []string{c.Get("ref")}, layout{})), 0644)
 		args = []string{"sam", "toPairAlign", "-s", filepath.Join(dir, "a.sam"), "-r", filepath.Join(dir, "r.fa"), "-o", "stdout", "-t", "2"}
+		if names := blockNames(recs); idSeed(c.ID)%2 == 0 && len(names) > 0 {
+			// directory output: the file of one query is a full device (a symbolic link to /dev/full), the others are fine
+			out := filepath.Join(dir, "pairs")
+			os.MkdirAll(out, 0755)
+			os.Symlink("/dev/full", filepath.Join(out, names[int(idSeed(c.ID)/2)%len(names)]+".fasta"))
+			args[7] = out
+			c.Tag("one-pair-file-on-a-full-device")
+			_, _, code, to := runCLI(20*time.Second, "", args...)
+			c.Set("go", fmt.Sprintf("exit=%d;timeout=%d", code, b2i(to)))
+			return
+		}
 	case "cli-devfull":
 		os.WriteFile(filepath.Join(dir, "r.fa"), []byte(renderFasta([]string{"ref"}, []string{c.Get("ref")}, layout{})), 0644)
 		os.WriteFile(filepath.Join(dir, "a.fa"), []byte(renderFasta(strings.Split(c.Get("names"), ","), strings.Split(c.Get("seqs"), ","), layout{})), 0644)
